@@ -252,7 +252,7 @@ def invalid_value(r):
 # ------------------------------------------------------------------ generic histories
 def history(r, cid, kinds=("dt", "cdt"), max_ops=14, max_pts=12, f32_share=0.2, styles=None,
             w_ins=60, w_rm=14, w_lrm=5, w_insh=8, w_trm=3, w_clear=1, w_clone=1, w_dupe=10, w_invalid=0,
-            w_addc=0, w_rmc=0, w_split=0, w_tryc=0, w_adde=0, force_kind=None, p_bulk=0.3):
+            w_addc=0, w_rmc=0, w_split=0, w_tryc=0, w_adde=0, force_kind=None, p_bulk=0.3, w_insmid=0):
     kind, scalar, hint = pick_cfg(r, kinds, f32_share)
     if force_kind:
         kind = force_kind
@@ -284,7 +284,7 @@ def history(r, cid, kinds=("dt", "cdt"), max_ops=14, max_pts=12, f32_share=0.2, 
         inserted += sub
     for _ in range(n_ops):
         ws = [("ins", w_ins), ("rm", w_rm), ("lrm", w_lrm), ("insh", w_insh), ("trm", w_trm), ("clear", w_clear),
-              ("clone", w_clone), ("dupe", w_dupe), ("invalid", w_invalid)]
+              ("clone", w_clone), ("dupe", w_dupe), ("invalid", w_invalid), ("insmid", w_insmid)]
         if kind == "cdt":
             ws += [("addc", w_addc), ("rmc", w_rmc), ("split", w_split), ("tryc", w_tryc), ("adde", w_adde)]
         ws = [(a, b) for a, b in ws if b > 0]
@@ -302,6 +302,9 @@ def history(r, cid, kinds=("dt", "cdt"), max_ops=14, max_pts=12, f32_share=0.2, 
             if r.chance(0.3) and x == 0.0:
                 x = -0.0
             c.ins(x, y, d)
+            d += 1
+        elif op == "insmid":
+            c.add("insmid", "e%d" % r.below(256), d)
             d += 1
         elif op in ("rm", "trm"):
             c.add(op, "v%d" % r.below(64))
